@@ -7,14 +7,17 @@ BASE_NOTE = ('Trusted base: CPython, z3 5.1.0, the SX models of bytes/str method
 claim('C16', 'bounded symbolic execution of the real split_lines (SX engine, z3 QF_BV), all paths, solver-decided',
       'For every byte string of 1..8 (quick) / 1..13 (thorough) fully symbolic bytes and each of the 10 newline '
       'sequences, every feasible path of the real split_lines (both modes) is executed symbolically and the four '
-      'clauses of the property are discharged by z3 (unsat of path condition and negated property).',
+      'clauses of the property are discharged by z3 (unsat of path condition and negated property). Long inputs '
+      '(up to several KiB, crossing 1024-byte boundaries) are covered by a fully symbolic window slid over every offset '
+      'of a concrete context.',
       BASE_NOTE, 'DESIGN.md section 4, C16')
 
 claim('C11', 'bounded symbolic execution of the real _read_header + regex-inclusion query against the spec grammar (NFA formula), z3',
       'The real DiffXReader._read_header runs on "#<id>:" + a fully symbolic option tail (0..7 bytes quick / 0..10 '
       'thorough, all 256 byte values, LF and CRLF files), on fully symbolic whole lines, and through the public '
       'iterator; on every feasible path z3 decides acceptance <=> membership in the specification grammar, the '
-      'exception type, and that the reported options equal an independent split (integers converted).',
+      'exception type, and that the reported options equal an independent split (integers converted). Headers of '
+      '95..193 bytes (around the read-ahead block) carry a symbolic window at every position of the option part.',
       BASE_NOTE + ' The specification grammar is written as an independent regex and compiled to a Boolean formula '
       'by the NFA builder (validated against re.fullmatch each run).', 'DESIGN.md section 4, C11')
 
@@ -22,7 +25,8 @@ claim('C17', 'symbolic execution of the real _read_until on an interval-abstract
       'One symbolic run of the real DiffXReader._read_until covers every read-ahead block size k>=1, every stream '
       'length, start offset and delimiter position (all z3 Ints) for searches needing at most 4 (quick) / 9 (thorough) '
       'reads: returned chunks tile [pos0, d+1) exactly, the stream is left at d+1, eof flag correct. The whole reader '
-      'is additionally run at byte level with forced block sizes and header paddings and symbolic diff content.',
+      'is additionally run at byte level with forced block sizes and header paddings and symbolic diff content, and on '
+      'streams already positioned at an offset > 0.',
       BASE_NOTE + ' Searches needing more reads than the bound are cut and counted in the evidence.',
       'DESIGN.md section 4, C17; 2.5')
 
@@ -31,7 +35,8 @@ claim('C14', 'differential bounded symbolic execution: real get_unified_diff_hun
       'pre-state (all counters, start lines, first/last changed lines symbolic integers under the stated invariant) '
       'on one symbolic line; z3 shows the post-state, appended hunk entry and raised error equal the reference step, '
       'which covers any number of lines by induction. The whole function is additionally run against the reference '
-      'on every sequence of 0..2 (quick) / 0..3 (thorough) symbolic template lines incl. the empty list.',
+      'on every sequence of 0..2 (quick) / 0..3 (thorough) symbolic template lines incl. the empty list, and on '
+      'sequences of 2-3 hunks with symbolic bodies. Locals that are not loop state are poisoned in the step.',
       BASE_NOTE + ' Reference parser /verif/ref/hunks.py (validated against the repository test inputs each run).',
       'DESIGN.md section 4, C14; Appendix A')
 
@@ -40,7 +45,7 @@ claim('C01', 'bounded symbolic execution of the real DiffXWriter followed by the
       'run is fully symbolic (preamble text 1..3 code points quick / 1..4 thorough incl. BOM code points, NUL, CR/LF, '
       'surrogates; diff 1..4 / 1..5 bytes), for every own/inherited encoding of the catalogue, indent, line_endings, '
       'mimetype / diff type; plus container histories (up to 4 / 6 containers each declaring an encoding or not) with '
-      'symbolic probe preambles. z3 decides record-by-record equality with norm().',
+      'symbolic probe preambles, and diffs following UTF-16/32 metadata. z3 decides record-by-record equality with norm().',
       BASE_NOTE + ' Metadata is concrete (catalogue); longer histories by composition with C02/C03/C04.',
       'DESIGN.md section 4, C01')
 
@@ -48,7 +53,8 @@ claim('C10', 'z3 query over the finite transition relation read from the current
       'The transition table of the current source is compared with the specification relation by a solver query over '
       'symbolic (prev,next) in 24x24 ids; the real reader is run on every valid walk of the hierarchy (up to 4 sections '
       'quick / 6 thorough) followed by a header whose name bytes (3..8) and dot count (0..4) are symbolic: z3 decides '
-      'accepted <=> allowed by the specification, record id/level, and that rejection is a DiffXParseError.',
+      'accepted <=> allowed by the specification, record id/level, and that rejection is a DiffXParseError; each earlier '
+      'header is also re-sent verbatim (and with one symbolic byte) after every walk.',
       BASE_NOTE, 'DESIGN.md section 4, C10; section 3 (REF_HIER)')
 
 claim('C04', 'inductive-step symbolic execution: one real writer call / one extracted reader loop iteration from an arbitrary valid state (encoding stack chosen symbolically), symbolic content decoded by the codec model, z3',
@@ -56,7 +62,8 @@ claim('C04', 'inductive-step symbolic execution: one real writer call / one extr
       'lifted from the current source and run from an arbitrary state satisfying Inv_r. z3 shows that the bytes '
       'written / text read use the own encoding else the nearest declaring ancestor (diff never inherits), and that '
       'the post-state satisfies the invariant again -- hence every nesting history, not only bounded ones. Encoding '
-      'names with symbolic spelling are shown to reach the stack verbatim.',
+      'names with symbolic spelling are shown to reach the stack verbatim. Locals outside the loop state are poisoned; '
+      'public-API histories with probes always run beside the step.',
       BASE_NOTE + ' If the named internals disappear the step is skipped (recorded) and C01 history bounds apply.',
       'DESIGN.md section 4, C04; Appendix A')
 
@@ -81,14 +88,16 @@ claim('C08', 'bounded symbolic execution of the real reader and DOM loader on co
       'symbolic bytes, plus fully symbolic buffers up to 7 / 10 bytes: every feasible path terminates and either '
       'completes or raises DiffXParseError with 0 <= linenum <= lines(input) and a message agreeing with its '
       'attributes; DiffX.from_stream on such inputs (and on headers whose option names are attribute names of the '
-      'object-model classes, by reflection) raises only BaseDiffXError subclasses and always closes the stream.',
+      'object-model classes, by reflection) raises only BaseDiffXError subclasses and always closes the stream. Valid '
+      'multi-section files (UTF-8, UTF-16 with CRLF) are corrupted by a symbolic window of 1..2 bytes at every offset.',
       BASE_NOTE + ' json.loads on undetermined symbolic text is exact on a small catalogue and otherwise assumed '
       'invalid (paths flagged).', 'DESIGN.md section 4, C08')
 
 claim('C07', 'bounded symbolic execution of the real reader on every truncation F[:p] of files with symbolic content, records compared with the intact file\'s records by z3; length perturbations',
       'For three skeleton files with a symbolic content section (1..3 bytes quick / 1..5 thorough + LF) and every cut '
       'point 0..len(F), the real reader is run on the intact file and on the truncated file in the same symbolic '
-      'path; z3 decides that the records of the truncated file are a prefix of the intact ones (ids, options, content), '
+      'path (container headers carry options, so that a cut header may still look like a header); z3 decides that the '
+      'records of the truncated file are a prefix of the intact ones (ids, options, content), '
       'followed by end or DiffXParseError. Lengths exceeding the data present, negative, non-numeric and int()-exotic '
       'tokens likewise. One known finding (short read accepted) is listed in known_findings.json.',
       BASE_NOTE, 'DESIGN.md section 4, C07; section 5 (D4)')
@@ -97,7 +106,8 @@ claim('C12', 'bounded symbolic execution of the real reader on base files and on
       'Into every header of three base files (all nine ids; utf-8, utf-16 with CRLF headers, no encoding) one unknown '
       'option with symbolic key and value (1..2 bytes each quick / 1..3 thorough, constrained to the key/value grammar and '
       'to differ from every option the library reads) is inserted at every position, and two options into selected '
-      'headers; z3 shows every record equals the base run except for the added keys, reported verbatim / as integers.',
+      'headers; keys that differ from a known option name only in case or in one symbolic byte are inserted likewise; '
+      'z3 shows every record equals the base run except for the added keys, reported verbatim / as integers.',
       BASE_NOTE, 'DESIGN.md section 4, C12')
 
 claim('C09', 'inductive-step symbolic execution of one real writer call from an arbitrary valid writer state, with symbolic text and codec-name characters; stream operation log and state snapshot compared; z3',
@@ -155,7 +165,8 @@ claim('C15', 'bounded symbolic execution with a *symbolic codec-name spelling*: 
       'ends in a concrete codec or LookupError; for every stateless text codec reached, get_newline_for_type / strip_bom / '
       'guess_line_endings must return the BOM-free LF/CRLF of that codec, and writer+reader with encoding=<spelling> must '
       'give the same text and content bytes as under the canonical spelling (symbolic text for the UTF/latin-1/ascii '
-      'families, concrete text through the real codec for all others).',
+      'families, concrete text through the real codec for all others). Every alias the platform knows for the BOM-relevant '
+      'codecs is additionally run with per-character symbolic case and symbolic separators, whatever its length.',
       BASE_NOTE + ' Stateful / non-text codecs are outside the property.', 'DESIGN.md section 4, C15')
 
 claim('C20', 'bounded symbolic execution of the DiffX lexer through the real Pygments RegexLexer driver (loaded under the same instrumentation; rule regexes executed by the exact backtracking regex model), z3 decides losslessness',
